@@ -102,9 +102,15 @@ class Log:
         """registers a distinct non-trivial case, by hash"""
         self.keys.add(short_hash(obj))
 
-    def violation(self, cls, detail):
+    def violation(self, cls, detail, info=None):
+        """detail is part of the event log (hence of the digest) and must be a function of
+        (plan, code); info carries material that may legitimately vary between
+        executions (e.g. text produced by nondeterministic code under test)"""
         self.ev('VIOLATION', cls, detail)
-        self.violations.append({'class': cls, 'detail': detail})
+        v = {'class': cls, 'detail': detail}
+        if info is not None:
+            v['info'] = info
+        self.violations.append(v)
 
     def result(self, discard=None, extra=None):
         r = {
@@ -320,8 +326,8 @@ def run_seed_forked(mod, seed, tier):
     repeated under the line tracer with a count budget: either it completes (the
     machine was merely slow; same digest, the tracer does not touch the log) or it ends
     in the deterministic violation no-progress, which replays."""
-    res = run_forked(_exec_seed, (mod, seed, tier), FIRST_WALL_CAP_S)
-    if 'harness_timeout' in res:
+    res = run_forked(_exec_seed, (mod, seed, tier), getattr(mod, 'WALL_CAP_S', FIRST_WALL_CAP_S))
+    if 'harness_timeout' in res and not getattr(mod, 'NO_RERUN', False):
         extra = {'_line_budget': NO_PROGRESS_LINES}
         res = run_forked(_exec_seed, (mod, seed, tier, extra), 120)
         if res.get('violations'):
@@ -538,6 +544,8 @@ def replay(mod, prop, path, verbose=False):
     same_digest = verbose or res['digest'] == rp['digest']
     print('REPRODUCED property=%s class=%s detail=%s same_detail=%s same_digest=%s'
           % (prop, want['class'], json.dumps(got[0]['detail']), same_detail, same_digest))
+    if 'info' in got[0]:
+        print('  info: %s' % json.dumps(got[0]['info']))
     print('VIOLATION property=%s replay=%s' % (prop, path))
     return EXIT_VIOLATION
 
